@@ -137,8 +137,10 @@ func c14Extra(tier string, rng *rand.Rand, res *Result) {
 	res.Evaluations += count
 	res.Stats["history_independence_and_disruption_probes"] = count
 	c14Collision(tier, res)
+	c14PrefixFamilies(res)
 	c14CtxRouting(tier, rng, res)
 	c14MgrHistories(tier, rng, res)
+	c13RaceStress(tier, rng, res, "hash", "hash-routing") // lookups concurrent with Add / Remove / Refresh, under the race detector
 }
 
 // c14Collision searches generated host names for two hosts with a common virtual node (a real md5 collision on
@@ -186,8 +188,48 @@ func c14Collision(tier string, res *Result) {
 	e2, _ := s2.Select(c13Msg{firstKey})
 	st["first"] = map[string]interface{}{"hosts": []string{x.Host, y.Host}, "point": firstKey, "refresh_xy_routes_to": e1.Host, "refresh_yx_routes_to": e2.Host}
 	if e1.Host != e2.Host {
-		res.Failures = append(res.Failures, Failure{Sig: "hash-routing/conhash-ketama/virtual-node-collision/order-dependent",
+		res.Failures = append(res.Failures, Failure{Sig: fmt.Sprintf("hash-routing/conhash-ketama/virtual-node-collision/order-dependent/%s+%s", x.Host, y.Host),
 			Desc:   fmt.Sprintf("hosts %s and %s share the virtual node %d; Refresh([%s,%s]) routes code %d to %s, Refresh([%s,%s]) routes it to %s: with colliding virtual nodes the mapping depends on the installation order", x.Host, y.Host, firstKey, x.Host, y.Host, firstKey, e1.Host, y.Host, x.Host, e2.Host),
 			Replay: map[string]interface{}{"kind": kind, "hosts": []c13Ep{x, y}, "code": firstKey}})
 	}
+}
+
+// c14PrefixFamilies: the virtual nodes of different hosts of the pool - which contains names that are prefixes of other
+// names continuing with digits - must be disjoint, for 25 rounds (weights off) and 100 rounds (weight 400), both hash
+// algorithms; and the two installation orders of any two of them must route alike.  (The pool is fixed, so this is
+// deterministic: no md5 coincidence among these names on the unchanged tree.)
+func c14PrefixFamilies(res *Result) {
+	checked := 0
+	for _, kind := range []string{"conhash-ketama", "conhash-default"} {
+		for _, weighted := range []bool{false, true} {
+			owner := map[uint32]string{}
+			reported := false
+			for _, h := range c13HostPool {
+				e := c13Ep{Host: h, Port: 1, Weight: 400, WType: 1}
+				for _, k := range c13PointsOf(kind, weighted, e) {
+					checked++
+					o, ok := owner[k]
+					if !ok || o == h {
+						owner[k] = h
+						continue
+					}
+					if reported {
+						continue
+					}
+					reported = true
+					x, y := c13Ep{Host: o, Port: 1, Weight: 400, WType: 1}, e
+					s1, s2 := c13NewSelector(kind, weighted), c13NewSelector(kind, weighted)
+					s1.Refresh(c13Eps([]c13Ep{x, y}))
+					s2.Refresh(c13Eps([]c13Ep{y, x}))
+					e1, _ := s1.Select(c13Msg{k})
+					e2, _ := s2.Select(c13Msg{k})
+					res.Failures = append(res.Failures, Failure{Sig: fmt.Sprintf("hash-routing/%s/virtual-nodes-of-different-hosts-shared/%s+%s", kind, o, h),
+						Desc:   fmt.Sprintf("hosts %s and %s (weights enabled=%v) both own the virtual node %d: their virtual-node names are not kept apart; Refresh([%s,%s]) routes code %d to %s, Refresh([%s,%s]) to %s", o, h, weighted, k, o, h, k, e1.Host, h, o, e2.Host),
+						Replay: map[string]interface{}{"kind": kind, "weighted": weighted, "hosts": []c13Ep{x, y}, "code": k}})
+				}
+			}
+		}
+	}
+	res.Evaluations += checked
+	res.Stats["virtual_nodes_of_pool_hosts_checked_disjoint"] = checked
 }
